@@ -36,35 +36,44 @@ func (c *child) buildSeeds() (seeds [][]byte, names []string) {
 	for ti := range typeSpecs {
 		for k := 0; k < per; k++ {
 			t := &typeSpecs[ti]
-			r := rand.New(rand.NewSource(kit.Seed()*1000003 + int64(ti*10+k)))
-			h, body := t.base(c.sg, r)
-			h["hx-list"] = []interface{}{"a", []interface{}{"n1", map[string]interface{}{"k": "v", "ml": "l1\nl2"}}, " sp "}
-			h["hx-ml"] = "first\n\n  third \n"
-			if k == 1 {
-				spec := genExtraHeaders(r)
-				for n, v := range spec.Extra {
-					h[n] = v
+			var enc []byte
+			// the second seed of a type carries generated hostile headers; keep
+			// it below 3000 bytes so that the per-offset enumeration stays bounded
+			for try := 0; ; try++ {
+				r := rand.New(rand.NewSource(kit.Seed()*1000003 + int64(ti*10+k) + int64(try)*7919))
+				h, body := t.base(c.sg, r)
+				h["hx-list"] = []interface{}{"a", []interface{}{"n1", map[string]interface{}{"k": "v", "ml": "l1\nl2"}}, " sp "}
+				h["hx-ml"] = "first\n\n  third \n"
+				if k == 1 && try < 200 {
+					spec := genExtraHeaders(r)
+					for n, v := range spec.Extra {
+						h[n] = v
+					}
+				}
+				if t.freeBody {
+					switch (ti + k) % 3 {
+					case 0:
+						body = []byte("body line\n\nsecond para\n")
+					case 1:
+						body = nil
+					case 2:
+						body = bytes.Repeat([]byte("0123456789abcde\n"), 90) // 1440 bytes
+					}
+				}
+				if ti%2 == 0 {
+					h["revision"] = "7"
+				}
+				c.prepTick("signing seed " + t.name)
+				a, err := c.sg.sign(t, h, body)
+				if err != nil {
+					panic(fmt.Sprintf("harness: cannot sign seed %s: %v", t.name, err))
+				}
+				enc = asserts.Encode(a)
+				if len(enc) <= 3000 || try >= 200 {
+					break
 				}
 			}
-			if t.freeBody {
-				switch (ti + k) % 3 {
-				case 0:
-					body = []byte("body line\n\nsecond para\n")
-				case 1:
-					body = nil
-				case 2:
-					body = bytes.Repeat([]byte("0123456789abcde\n"), 90) // 1440 bytes
-				}
-			}
-			if ti%2 == 0 {
-				h["revision"] = "7"
-			}
-			c.prepTick("signing seed " + t.name)
-			a, err := c.sg.sign(t, h, body)
-			if err != nil {
-				panic(fmt.Sprintf("harness: cannot sign seed %s: %v", t.name, err))
-			}
-			seeds = append(seeds, asserts.Encode(a))
+			seeds = append(seeds, enc)
 			names = append(names, t.name)
 		}
 	}
